@@ -8,7 +8,16 @@ Regenerated on every run from
 and pinned by golden AST shape (fail closed when the source shape changes):
   transaction._validate_schema_against_table  (legacy table => nothing enforced; signatures compared with !=)
   data_operations.create_arrow_schema         (cache keyed by schema_id only; fields in list order; nullable = not required)
-  data_operations.validate_records_strict     loop skeleton (unknown keys, required present and not None)
+  data_operations.validate_records_strict     the per-record key tests (every key a str; no unknown key), in this order
+  data_operations._value_fits / _iceberg_type_to_arrow   the list<element> branches (element = text[5:-1], recursion)
+  data_structures.Schema.__post_init__        field ids are integers (bool excluded); duplicate ids / names refused
+  transaction.append_files / _with_verified_bounds / append_data   bounds supplied with a pre-built file are recomputed
+  transaction.append_data                     the schema argument object is validated again (Schema(...)) before it is compared
+and, for the behaviour under storage faults (Model/SchemaTx.v), regenerated as booleans -- is the failing
+operation outside every `try`, so that its exception reaches the caller? --
+  transaction._resolve_table_schema           self.metadata_manager.refresh()     -> resolve_refresh_propagates
+  transaction.append_data                     self._register_inflight(file_path)  -> marker_failure_propagates
+  transaction.append_data                     self.append_files([...])            -> queue_failure_propagates
 
 The hand-written model (Model/Schema.v) builds `signature` / `accept_schema` from sig_ordered and
 sig_comps, so replacing the ordered list by a set, or dropping the field id from the tuple, changes
@@ -69,6 +78,9 @@ def primitive_types(src: str) -> List[str]:
 
 POST_INIT_CHECKS = [
     # (what, regex over the normalised dump) -- Schema.__post_init__ must keep rejecting these
+    ("field id that is not an integer (Model/Schema.v: fid : Z)",
+     r"If\(BoolOp\(Or\(\),\[Call\(Name\('isinstance',Load\(\)\),\[Name\('f_id',Load\(\)\),Name\('bool',Load\(\)\)\],\[\]\),"
+     r"UnaryOp\(Not\(\),Call\(Name\('isinstance',Load\(\)\),\[Name\('f_id',Load\(\)\),Name\('int',Load\(\)\)\],\[\]\)\)\]\),\[Raise"),
     ("duplicate field id", r"If\(Compare\(Name\('f_id',Load\(\)\),\[In\(\)\],\[Name\('seen_ids',Load\(\)\)\]\),\[Raise"),
     ("duplicate field name", r"If\(Compare\(Name\('f_name',Load\(\)\),\[In\(\)\],\[Name\('seen_names',Load\(\)\)\]\),\[Raise"),
     ("unknown primitive type", r"If\(Compare\(Name\('f_type',Load\(\)\),\[NotIn\(\)\],\[Name\('valid_primitive_types',Load\(\)\)\]\),\[Raise"),
@@ -255,6 +267,123 @@ def check_pins(src: str) -> None:
         raise Unsupported(f"create_arrow_schema shape changed.\n expected {CREATE_ARROW_SCHEMA}\n got      {got}")
 
 
+# ------------------------------------------------------------------ further pins (by source text of the statements)
+def _u(node: ast.AST) -> str:
+    return re.sub(r"\s+", " ", ast.unparse(node)).strip()
+
+
+def _stmts(fn: ast.FunctionDef) -> List[str]:
+    """The function's top-level statements (docstring stripped), raise messages elided."""
+    out = []
+    for st in strip_docstring(list(fn.body)):
+        st = _StripRaise().visit(ast.parse(ast.unparse(st)).body[0])
+        out.append(_u(st))
+    return out
+
+
+VALUE_FITS_LIST = ("if isinstance(field_type, str) and field_type.startswith('list<'): "
+                   "if not isinstance(value, (list, tuple)): return False "
+                   "element_type = field_type[5:-1] "
+                   "return all((DataFileManager._value_fits(element_type, item) for item in value))")
+ARROW_LIST = ("if iceberg_type.startswith('list<'): element_type = iceberg_type[5:-1] "
+              "return pa.list_(self._iceberg_type_to_arrow(element_type))")
+RECORD_KEYS = ["not_names = [k for k in record.keys() if not isinstance(k, str)]", "if not_names: raise",
+               "unknown = {str(k) for k in record.keys()} - allowed", "if unknown: raise"]
+VERIFIED_BOUNDS = [
+    "if data_file.lower_bounds is None and data_file.upper_bounds is None: return data_file",
+    "lower_bounds = None",
+    "upper_bounds = None",
+    "if table_schema is not None: import pyarrow.parquet as pq "
+    "dfm = self.file_manager.data_file_manager "
+    "try: with dfm.open_parquet_source(data_file.file_path) as src: content = pq.read_table(src) "
+    "except Exception as e: raise "
+    "lower_bounds, upper_bounds = dfm._compute_column_bounds(content, table_schema)",
+    "return dataclasses.replace(data_file, lower_bounds=lower_bounds, upper_bounds=upper_bounds)",
+]
+
+
+def check_more_pins(src: str) -> None:
+    mod = parse_module(src, "data_operations.py")
+    got = _stmts(find_function(mod, "_value_fits", cls="DataFileManager"))
+    if got[:2] != ["if value is None: return True", "if isinstance(field_type, dict): field_type = field_type.get('type', 'string')"] \
+            or got[2] != VALUE_FITS_LIST:
+        raise Unsupported(f"_value_fits: the list<element> admission (or what precedes it) changed: {got[:3]}")
+    arrow = _u(find_function(mod, "_iceberg_type_to_arrow", cls="DataFileManager"))
+    if ARROW_LIST not in arrow:
+        raise Unsupported("_iceberg_type_to_arrow: the list<element> branch changed")
+    fn = find_function(mod, "validate_records_strict", cls="DataFileManager")
+    loops = [st for st in fn.body if isinstance(st, ast.For)]
+    if len(loops) != 1:
+        raise Unsupported("validate_records_strict: expected one loop over the records")
+    body = [_u(_StripRaise().visit(ast.parse(ast.unparse(st)).body[0])) for st in loops[0].body]
+    if body[:4] != RECORD_KEYS:
+        raise Unsupported(f"validate_records_strict: the key tests changed: {body[:4]}")
+    mod = parse_module(src, "transaction.py")
+    got = _stmts(find_function(mod, "_with_verified_bounds", cls="Transaction"))
+    if got != VERIFIED_BOUNDS:
+        raise Unsupported(f"_with_verified_bounds changed: {got}")
+    app = _stmts(find_function(mod, "append_files", cls="Transaction"))
+    want = ["if not _statistics_computed_here: files = [self._with_verified_bounds(f, table_schema) for f in files]",
+            "self._operations.append({'type': 'append_files', 'files': files})", "return self"]
+    if app[-3:] != want:
+        raise Unsupported(f"append_files: queueing changed (bounds of pre-built files must be verified first): {app[-3:]}")
+    app_data = _u(find_function(mod, "append_data", cls="Transaction"))
+    if "else: Schema(schema_id=schema.schema_id, fields=schema.fields) self._validate_schema_against_table(schema)" not in app_data:
+        raise Unsupported("append_data no longer re-validates the schema argument object (Schema(...)) before comparing it with the table's")
+    whole = ast.unparse(mod)
+    if whole.count("_statistics_computed_here=True") != 1 or \
+            "self.append_files([updated_data_file], _statistics_computed_here=True)" not in _u(find_function(mod, "append_data", cls="Transaction")):
+        raise Unsupported("only append_data, for the file it has just written, may skip the verification of supplied bounds")
+
+
+def _propagates(fn: ast.FunctionDef, text: str) -> bool:
+    """Is the unique statement containing `text` outside every `try` of fn (its exception reaches the caller)?"""
+    hits: List[bool] = []
+
+    def walk(stmts: List[ast.stmt], guarded: bool) -> None:
+        for st in stmts:
+            if isinstance(st, ast.Try):
+                walk(st.body, True)
+                for h in st.handlers:
+                    walk(h.body, guarded)
+                walk(st.orelse, guarded)
+                walk(st.finalbody, guarded)
+                continue
+            if isinstance(st, (ast.If, ast.For, ast.While, ast.With)):
+                walk(st.body, guarded)
+                walk(getattr(st, "orelse", []), guarded)
+                head = st.test if isinstance(st, (ast.If, ast.While)) else (st.iter if isinstance(st, ast.For) else None)
+                if head is not None and text in _u(head):
+                    hits.append(not guarded)
+                continue
+            if isinstance(st, (ast.FunctionDef, ast.ClassDef)):
+                continue
+            if text in _u(st):
+                hits.append(not guarded)
+
+    walk(strip_docstring(list(fn.body)), False)
+    if len(hits) != 1:
+        raise Unsupported(f"{fn.name}: expected exactly one statement containing {text!r}, found {len(hits)}")
+    return hits[0]
+
+
+def fault_flags(src: str) -> Dict[str, bool]:
+    mod = parse_module(src, "transaction.py")
+    res = find_function(mod, "_resolve_table_schema", cls="Transaction")
+    app = find_function(mod, "append_data", cls="Transaction")
+    files = find_function(mod, "append_files", cls="Transaction")
+    first = _stmts(files)
+    if "table_schema = self._resolve_table_schema()" not in first or \
+            first.index("table_schema = self._resolve_table_schema()") > 1:
+        raise Unsupported("append_files no longer resolves the table schema before looking at any file")
+    order = [i for i, t in enumerate(_stmts(app)) if "self._register_inflight(file_path)" in t or "write_data_file(" in t]
+    if len(order) != 2 or "self._register_inflight(file_path)" not in _stmts(app)[order[0]]:
+        raise Unsupported("append_data: the in-flight marker is no longer written right before the data file")
+    return {"resolve_refresh_propagates": _propagates(res, "self.metadata_manager.refresh()"),
+            "marker_failure_propagates": _propagates(app, "self._register_inflight(file_path)"),
+            "queue_failure_propagates": _propagates(app, "self.append_files(")}
+
+
 @generator("GenSchema.v")
 def gen_schema(src: str) -> str:
     prims = primitive_types(src)
@@ -264,6 +393,8 @@ def gen_schema(src: str) -> str:
     check_bounds_keying(src)
     ordered, comps = signature_shape(src)
     check_pins(src)
+    check_more_pins(src)
+    flags = fault_flags(src)
 
     atypes: List[str] = []
     for t in prims:
@@ -298,6 +429,10 @@ def gen_schema(src: str) -> str:
         "Inductive sigcomp := CId | CName | CType | CReq.",
         f"Definition sig_ordered : bool := {'true' if ordered else 'false'}.",
         "Definition sig_comps : list sigcomp := [" + "; ".join(comps) + "].",
+        "",
+        "(* storage failures during append_data / append_files: true = the failing operation is outside every `try`,",
+        "   its exception reaches the caller *)",
+    ] + [f"Definition {k} : bool := {'true' if v else 'false'}." for k, v in flags.items()] + [
         "",
     ]
     return "\n".join(lines)
